@@ -61,7 +61,9 @@ CoordShapes(kt) == IF kt = "ed" THEN {"any"}
 \* x_short_shadowed: the x member is too short and a member "X" (another letter case: another member) holds the right one
 \* (x_plus_p: the x coordinate plus the field prime, where that still fits the width - the same residue, not a field element)
 JwkMods == {"none", "off_curve", "x_short", "x_long", "y_short", "y_long", "x_empty", "wrong_crv_name", "x_not_base64", "x_short_shadowed",
-            "x_plus_p"}
+            "x_plus_p",
+            \* x one byte short and y one byte long at once (the point as a whole has the right size)
+            "x_short_y_long"}
 ModApplies(kt, m) == kt # "ed" \/ m \in {"none", "x_short", "x_long", "x_empty", "x_not_base64", "x_short_shadowed"}
 
 JwkCases == {[kind |-> "jwk", kt |-> kt, shape |-> sh, mod |-> m] : kt \in KeyTypes,
